@@ -51,22 +51,30 @@ def validBodyAux : Bool → List Char → Bool
     else if c == '_' && prev then (match rest with | d :: _ => isDigit d | [] => false) && validBodyAux false rest
     else false
 
+/-- the optional sign of `int()` and what follows it -/
+def signBody (s : List Char) : Bool × List Char :=
+  match s with
+  | '-' :: r => (true, r)
+  | '+' :: r => (false, r)
+  | _ => (false, s)
+
 /-- Python's `int(s)` (base 10) on Latin-1 text -/
 def pyInt (s : List Char) : Option Int :=
-  let s := strip s
-  let (neg, body) : Bool × List Char :=
-    match s with
-    | '-' :: r => (true, r)
-    | '+' :: r => (false, r)
-    | _ => (false, s)
-  if validBodyAux false body then
-    let v : Nat := Nat.ofDigitChars 10 (body.filter (· ≠ '_')) 0
-    some (if neg then - (v : Int) else v)
+  let sb := signBody (strip s)
+  if validBodyAux false sb.2 then
+    let v : Nat := Nat.ofDigitChars 10 (sb.2.filter (· ≠ '_')) 0
+    some (if sb.1 then - (v : Int) else v)
   else none
+
+/-- does the step end in one of the hardening symbols -/
+def isHard (symbols : List Char) (s : List Char) : Bool :=
+  match s.getLast? with
+  | some c => symbols.contains c
+  | none => false
 
 /-- `_index_and_hardening_from_str` -/
 def indexOfStep (symbols : List Char) (strict : Bool) (s : List Char) : Except Err Nat :=
-  let hard : Bool := match s.getLast? with | some c => symbols.contains c | none => false
+  let hard := isHard symbols s
   let number := if hard then s.dropLast else s
   if strict && !(!number.isEmpty && number.all isDigit) then .error .index else
   match pyInt number with
@@ -76,13 +84,15 @@ def indexOfStep (symbols : List Char) (strict : Bool) (s : List Char) : Except E
 
 def lower (c : Char) : Char := if 65 ≤ c.toNat ∧ c.toNat ≤ 90 then Char.ofNat (c.toNat + 32) else c
 
+/-- the leading `m` (any case) is skipped -/
+def skipM (steps : List (List Char)) : List (List Char) :=
+  match steps with
+  | h :: t => if h.map lower == ['m'] then t else steps
+  | [] => steps
+
 /-- `indexes_from_der_path(<str>)` (lenient reading: leading m skipped, empty steps dropped) -/
 def indexesFromStr (s : List Char) : Except Err (List Nat) :=
-  let steps := (splitOn '/' s).map strip
-  let steps := match steps with
-    | h :: t => if h.map lower == ['m'] then t else steps
-    | [] => steps
-  let steps := steps.filter (fun st => !st.isEmpty)
+  let steps := (skipM ((splitOn '/' s).map strip)).filter (fun st => !st.isEmpty)
   (steps.mapM (indexOfStep Gen.Bip32.HARDENINGS false)).bind fun idx =>
     if idx.length > Gen.Bip32.PATH_STR_MAX_LEN then .error .depth else .ok idx
 
